@@ -99,3 +99,69 @@ func Harness_C13_TimeoutArithmetic() {
 		vCover("timeout-observed(virtual-time)")
 	}
 }
+
+// a shared registration whose callees differ in call_timeout support: the
+// timeout is handed over only to a callee that can handle it; every other
+// call is timed by the router
+func Harness_C13_TimeoutSharedRegistration() {
+	d := newDealer(vNopLog{}, false, true, false)
+	caller := vNewSess(21, nil, vFeat("caller", map[string]bool{"call_canceling": true}), 32)
+	var feat, opt [2]bool
+	var callee [2]*vSess
+	for k := 0; k < 2; k++ {
+		feat[k] = vBool("callee.call_timeout")
+		opt[k] = vBool("register.forward_timeout")
+		callee[k] = vNewSess(wamp.ID(22+k), nil, vFeat("callee", map[string]bool{"call_timeout": feat[k], "call_canceling": true, "shared_registration": true}), 32)
+		d.register(callee[k].s, &wamp.Register{Request: 1, Procedure: "p.q", Options: wamp.Dict{"invoke": "roundrobin", "forward_timeout": opt[k]}})
+		vSyncDealer(d)
+		_, n := vFindMsg[*wamp.Registered](callee[k].vDrain())
+		vAssert("registered", n == 1)
+	}
+	t0 := vNow()
+	routerTimed := 0
+	var inv [2]*wamp.Invocation
+	var fwd [2]bool
+	for k := 0; k < 2; k++ {
+		d.call(caller.s, &wamp.Call{Request: wamp.ID(5 + k), Procedure: "p.q", Options: wamp.Dict{"timeout": 500}})
+		vSyncDealer(d)
+		iv, n := vFindMsg[*wamp.Invocation](callee[k].vDrain())
+		vAssert("round-robin-invocation", n == 1)
+		if n != 1 {
+			return
+		}
+		inv[k] = iv
+		_, fwd[k] = iv.Details["timeout"]
+		vAssert("timeout-forwarded-only-to-a-callee-that-handles-it", vImplies(fwd[k], feat[k] && (opt[0] || opt[1])))
+		if opt[0] == opt[1] {
+			vAssert("timeout-forwarded-iff-requested-and-supported", fwd[k] == (feat[k] && opt[k]))
+		}
+		if !fwd[k] {
+			routerTimed++
+		}
+	}
+	vAssert("router-times-every-call-it-did-not-hand-over", vPendingTimers() == routerTimed)
+	vAssert("nothing-before-expiry", len(caller.vDrain()) == 0)
+	vAdvance(600 * 1000000)
+	vSyncDealer(d)
+	vAssert("no-timer-left", vPendingTimers() == 0)
+	got := caller.vDrain()
+	vAssert("one-timeout-error-per-router-timed-call", len(got) == routerTimed)
+	for _, m := range got {
+		e, ok := m.(*wamp.Error)
+		vAssert("timeout-error", ok && e.Error == wamp.ErrTimeout && e.Type == wamp.CALL && (e.Request == 5 || e.Request == 6))
+		if ok && (e.Request == 5 || e.Request == 6) {
+			vAssert("timeout-only-for-router-timed-call", !fwd[e.Request-5])
+		}
+	}
+	if routerTimed > 0 {
+		vAssert("never-earlier-than-timeout", vNow() >= t0+500*1000000)
+	}
+	for k := 0; k < 2; k++ {
+		_, ni := vFindMsg[*wamp.Interrupt](callee[k].vDrain())
+		vAssert("interrupt-iff-router-timed-out", (ni == 1) == !fwd[k] && ni <= 1)
+	}
+	if routerTimed == 1 {
+		vCover("mixed-callees")
+	}
+	vCover("shared-timeout-checked")
+}
